@@ -145,8 +145,8 @@ theorem cons_of (i : Info) (f : Frame) (hk : keys i.reg = f.names) (hc : ConsReg
     register looked like before (stale, relabelled, foreign) -/
 theorem check_establishes (r r' : Reg) (f : Frame) (last : Option Frame)
     (h : updateColumns true r f = (r', none)) (he : f.empty = false) :
-    Spec.Cons ⟨⟨r', last, true⟩, f⟩ :=
-  cons_of ⟨r', last, true⟩ f (updateColumns_ok_keys true r r' f h he) (updateColumns_ok_cons r r' f h he)
+    Spec.Cons ⟨{ reg := r', last := last, strict := true }, f⟩ :=
+  cons_of { reg := r', last := last, strict := true } f (updateColumns_ok_keys true r r' f h he) (updateColumns_ok_cons r r' f h he)
 
 /-- a validation that would leave an inconsistent strict table readable does not succeed: if the frame has a
     column whose registered unit does not match its dtype kind, `_update_columns` raises -/
@@ -162,14 +162,16 @@ theorem refuses_mismatch (r : Reg) (f : Frame) (he : f.empty = false) (c : Col) 
       have hkeep := updateColumns_ok_keeps true r r' f h he c hc m (by rw [get_eq_lookup]; exact hm)
       exact hbad (updateColumns_ok_cons r r' f h he c hc m hkeep).2
 
-/-- **short-cut soundness**: when validation is skipped (`last = some f`: same column names, same dtypes
-    *and same emptiness* as the last validated state) the consultation changes nothing and, for a strict
-    frame with rows, the table is consistent — by the invariant every operation maintains -/
-theorem shortcut_sound (i : Info) (f : Frame) (hg : Good i) (hgc : GoodC i) (hl : i.last = some f) :
+/-- **short-cut soundness**: when validation is skipped (`last = some f`: same column names, same dtypes,
+    *same emptiness* as the last validated state, *and the strict flag it was validated under*) the
+    consultation changes nothing and, for a strict frame with rows, the table is consistent — by the
+    invariant every operation maintains -/
+theorem shortcut_sound (i : Info) (f : Frame) (hg : Good i) (hgc : GoodC i) (hl : i.last = some f)
+    (hls : i.lastStrict = i.strict) :
     checkDataframe i f = (i, none) ∧ (i.strict = true → f.empty = false → Spec.Cons ⟨i, f⟩) := by
-  refine ⟨by simp [checkDataframe, hl], ?_⟩
+  refine ⟨by simp [checkDataframe, hl, hls], ?_⟩
   intro hs he
-  exact cons_of i f (hg.keysOk f hl (Or.inl he)) (hgc f hl he hs)
+  exact cons_of i f (hg.keysOk f hl (Or.inl he)) (hgc f hl he (by rw [hls]; exact hs))
 
 /-- why emptiness has to be part of the remembered state: a `text`-labelled float column validated while the
     frame had no rows (all checks skipped) is *not* consistent once a row exists, although names and dtypes are
@@ -190,7 +192,8 @@ theorem cons_after_check (i i' : Info) (f : Frame) (hg : Good i) (hgc : GoodC i)
   have hst := checkDataframe_strict i f
   rw [h] at hg' hgc' hst
   have hl := checkDataframe_ok_last i i' f h
-  exact cons_of i' f (hg'.keysOk f hl (Or.inl he)) (hgc' f hl he (by simp only at hst; rw [hst]; exact hs))
+  have hls := checkDataframe_ok_lastStrict i i' f h
+  exact cons_of i' f (hg'.keysOk f hl (Or.inl he)) (hgc' f hl he (by simp only at hst ⊢; rw [hls, hst]; exact hs))
 
 /-! ## every operation that is not an excluded relabelling preserves the invariant -/
 
@@ -384,6 +387,7 @@ theorem step_goodC (t : Tbl) (op : Op) (hg : GoodC t.info) (ha : Allowed t op) :
   | setUnits m => simpa [step] using setUnits_goodC t.info t.frame m hg ha
   | setAllUnits us => simpa [step, setAllUnits] using setUnits_goodC t.info t.frame _ hg ha
   | setFmt n fm => simpa [step] using setColFmt_goodC t.info t.frame n fm hg
+  | setStrict b => intro f0 hf0 he hs; exact hg f0 (by simpa [step] using hf0) he (by simpa [step] using hs)
   | setColUnit n u =>
     by_cases hc : n ∈ t.frame.names
     · by_cases hd : dupLabel t.frame n = true
@@ -443,9 +447,10 @@ theorem reachable_cons (f0 : Frame) (us : Option (List Str)) (um : Option (List 
 
 /-- **the guarantee resumes after an excluded relabelling**: from *any* info state (no invariant assumed:
     relabelled, stale, anything), a consultation that does validate (the remembered state is not the current
-    frame) and succeeds yields, for a strict frame with rows, a consistent table and re-establishes both
+    frame, or was validated under the other strict flag) and succeeds yields, for a strict frame with rows, a consistent table and re-establishes both
     invariants — so `reachable_cons` applies again from there -/
-theorem revalidation_restores (i i' : Info) (f : Frame) (hnd : (keys i.reg).Nodup) (hl : i.last ≠ some f)
+theorem revalidation_restores (i i' : Info) (f : Frame) (hnd : (keys i.reg).Nodup)
+    (hl : ¬ (i.last = some f ∧ i.lastStrict = i.strict))
     (h : checkDataframe i f = (i', none)) :
     Good i' ∧ GoodC i' ∧ (i.strict = true → f.empty = false → Spec.Cons ⟨i', f⟩) := by
   unfold checkDataframe at h
@@ -481,6 +486,15 @@ example :
       let t := run ⟨i, fR⟩ [.setColUnit "a".toList "text".toList]
       ((step t .consult).2, units (step t .consult).1.info.reg)) =
     some (none, ["text".toList]) := by decide
+
+/-- the strict flag is part of the remembered state: a float column labelled 'text' in a non-strict table is
+    readable; after `metadata.strict_types = True` the short cut does not fire (the state was validated
+    non-strict) and the consultation refuses the table -/
+example :
+    let fR : Frame := ⟨[⟨"a".toList, "f8".toList, "f".toList⟩], false⟩
+    (make fR (some ["text".toList]) none false).toOption.map (fun i =>
+      ((step ⟨i, fR⟩ .consult).2, (step (run ⟨i, fR⟩ [.consult, .setStrict true]) .consult).2)) =
+    some (none, some Err.columnUnit) := by decide
 
 /-! ## non-vacuity -/
 
